@@ -103,7 +103,7 @@ class Node:
 class World:
 	def __init__(self, seed = 0, bind_addr = "127.0.0.1"):
 		self.net = vnet.Net()
-		udp_link.socket = self.net.socket_module()
+		vnet.attach(udp_link, self.net)
 		self.bind_addr = bind_addr
 		self.nodes = []
 		self.log = capture_logging()
@@ -144,7 +144,7 @@ class AppWorld:
 
 	def __init__(self, argv, seed = 0, gated = True):
 		self.net = vnet.Net()
-		udp_link.socket = self.net.socket_module()
+		vnet.attach(udp_link, self.net)
 		self.log = capture_logging()
 		self.log.take()
 		random.seed(seed)
